@@ -748,8 +748,11 @@ Definition streams_step (o : sop) (st : streams_st) : sobs * streams_st :=
                 (mkSobs (R None e) items, mkStreams (upd_nth p (ss_active st) (fun _ => s1)) (ss_gone st))
     end
   | SSlice ps =>
-    let (r, ss1) := next_in_slice (ss_active st) ps (R None None) in
-    (mkSobs r [], mkStreams ss1 (ss_gone st))
+    (* the driver only issues the call when every index is inside the slice *)
+    if forallb (fun p => Nat.ltb p (length (ss_active st))) ps then
+      let (r, ss1) := next_in_slice (ss_active st) ps (R None None) in
+      (mkSobs r [], mkStreams ss1 (ss_gone st))
+    else (mkSobs RNil [], st)
   | SStop p => on_stream p st (fun s => (RNil, stream_stop s))
   | SStopAll => (mkSobs RNil [], mkStreams (map stream_stop (ss_active st)) (ss_gone st))
   end.
